@@ -17,7 +17,7 @@ from concurrent.futures import ThreadPoolExecutor
 
 HERE = os.path.dirname(os.path.abspath(__file__))
 VERIF = os.path.dirname(os.path.dirname(HERE))
-COPY_DIRS = ["src", "plugins", "tests/standardized"]
+COPY_DIRS = ["src", "plugins", "tests/standardized", "docs"]
 
 
 def make_copy(root: str, dst: str) -> None:
